@@ -195,7 +195,7 @@ static void t_case(uint64_t idx, void *ctx)
 /* ------------------------------------------------------------------ (4) lifecycle */
 typedef struct { int init, nctx, nbi, kset, cycles, nullreg, scans, argvs; long base; int first_get_ok; } ls_t;
 enum { O_INIT, O_REG_CTX, O_REG_BI, O_PARSE, O_PUT, O_GET, O_FREE, O_REG_NULL, O_DIRSCAN, O_ARGV, NLOPS };
-static const char *LN[NLOPS] = { "init", "register_context", "register_builtin", "parse(file with %include, blocks, $V)", "expand %put(k v)", "expand x%get(k)y", "free", "register_context(\"null\") again", "expand %dirscan(dir with one file)", "parse_line(NULL, ...) x 6 (lines given on the command line)" };
+static const char *LN[NLOPS] = { "init", "register_context", "register_builtin", "parse(file with %include, blocks, $V)", "expand %put(k v)", "expand x%get(k)y", "free", "register_context(\"null\") again", "expand %dirscan(dir with one file)", "parse_line(NULL, ...) x 10 (lines given on the command line)" };
 static char g_lfile[300], g_linc[300], g_ldir[300];
 static void l_name(int i, char *b, size_t n) { snprintf(b, n, "%s", LN[i]); }
 static void *l_fresh(void)
@@ -220,10 +220,12 @@ static void l_apply(void *vs, int op)
     switch (op) {
     case O_INIT: spifconf_init_subsystem(); s->init = 1; s->nctx = s->nbi = 0; s->kset = 0; s->nullreg = 0; s->scans = 0; s->argvs = 0; break;
     case O_ARGV: {          /* the fp == NULL mode of spifconf_parse_line: "context text..." given outside any file */
-        static const char *AL[6] = { "A attr value $V", "", "# c", "zz text", "A", "B x" };
-        for (int i = 0; i < 6; i++) { b = malloc(CONFIG_BUFF); strcpy(b, AL[i]); spifconf_parse_line(NULL, (spif_charptr_t) b); free(b);
+        static char inc[400]; snprintf(inc, sizeof inc, "A %%include %s", g_linc);
+        const char *AL[10] = { "A attr value $V", "", "# c", "zz text", "A", "B x", "A %", "A %x", inc, "A %preproc cat" };
+        for (int i = 0; i < 10; i++) { b = malloc(CONFIG_BUFF); strcpy(b, AL[i]); spifconf_parse_line(NULL, (spif_charptr_t) b); free(b);
             if (fstate_idx != 0) { FAIL("spifconf_parse_line", "model:file-stack-not-restored", shape, "file stack index is %d after parse_line(NULL, \"%s\")", fstate_idx, AL[i]); fstate_idx = 0; break; }
             if (ctx_state_idx != 0) { FAIL("spifconf_parse_line", "model:context-stack-depth", shape, "context stack index is %d after parse_line(NULL, \"%s\")", ctx_state_idx, AL[i]); ctx_state_idx = 0; break; } }
+        g_spawns = 0;                       /* the %preproc line may run its command; the other lines may not, and the parse op checks that */
         s->argvs++; break; }
     case O_REG_NULL: spifconf_register_context((spif_charptr_t) "null", ctx_handler); s->nullreg = 1; break;        /* replaces the built-in null context, whatever else is registered */
     case O_DIRSCAN: b = malloc(CONFIG_BUFF); snprintf(b, CONFIG_BUFF, "x%%dirscan(%s)y", g_ldir); spifconf_shell_expand((spif_charptr_t) b);
